@@ -620,9 +620,9 @@ class Evaluator:
     # ---- control flow
     def _run(self, fn, bb, env, visits, depth, until=None):
         while True:
-            if until is not None and bb == until:
+            if until and bb in until:
                 self._jid += 1
-                self._joins[self._jid] = (env, visits)
+                self._joins[self._jid] = (env, visits, bb)
                 return ("@join", self._jid)
             self.steps += 1
             if self.steps > MAXSTEPS:
@@ -648,9 +648,9 @@ class Evaluator:
         first = True
         while True:
             if not first:
-                if until is not None and bb == until:
+                if until and bb in until:
                     self._jid += 1
-                    self._joins[self._jid] = (env, visits)
+                    self._joins[self._jid] = (env, visits, bb)
                     return ("@join", self._jid)
                 if len(fn.pred_map()[bb]) > 1 and self.stop is None:
                     return self._run(fn, bb, env, visits, depth, until)
@@ -771,34 +771,34 @@ class Evaluator:
         join = fn.ipdom().get(bb, -1)
         if join == -1 or (self.stop is not None and fn.path == self.stop[0] and join not in self.stop[2]) or visits.get(join, 0) > 0 and join == bb:
             join = None
-        if join is None:
-            tree = self._branch(fn, t, d, dty, env, visits, depth, until)
-            return tree
-        tree = self._branch(fn, t, d, dty, env, visits, depth, join)
+        if join is None or (until and join in until):
+            return self._branch(fn, t, d, dty, env, visits, depth, until)
+        inner = frozenset(until or ()) | {join}
+        tree = self._branch(fn, t, d, dty, env, visits, depth, inner)
         ls = _leaves(tree, [])
-        jl = [x for x in ls if isinstance(x, tuple) and x and x[0] == "@join"]
-        if not jl:
+        mine = [x for x in ls if isinstance(x, tuple) and x and x[0] == "@join" and self._joins[x[1]][2] == join]
+        if not mine:
             return tree
-        if len(jl) == len(ls):
-            envs = {x[1]: self._joins[x[1]][0] for x in jl}
+        if len(mine) == len(ls):
+            envs = {x[1]: self._joins[x[1]][0] for x in mine}
             keys = set()
             for e in envs.values():
                 keys |= set(e)
             merged = {}
-            first = next(iter(envs.values()))
+            j0 = mine[0][1]
             for l in keys:
                 vals = {jid: e.get(l, ("uninit",)) for jid, e in envs.items()}
-                if all(v == vals[jl[0][1]] for v in vals.values()):
-                    merged[l] = vals[jl[0][1]]
+                if all(v == vals[j0] for v in vals.values()):
+                    merged[l] = vals[j0]
                 else:
                     merged[l] = map_leaves(tree, lambda leaf, vals=vals: vals[leaf[1]])
-            v2 = self._joins[jl[0][1]][1]
+            v2 = self._joins[j0][1]
             return self._run(fn, join, merged, v2, depth, until)
         # mixed: continue every arm that reached the join separately
 
         def cont(leaf):
-            if isinstance(leaf, tuple) and leaf and leaf[0] == "@join":
-                e, v = self._joins[leaf[1]]
+            if isinstance(leaf, tuple) and leaf and leaf[0] == "@join" and self._joins[leaf[1]][2] == join:
+                e, v, _ = self._joins[leaf[1]]
                 return self._run(fn, join, dict(e), v, depth, until)
             return leaf
         return map_leaves(tree, cont)
@@ -921,6 +921,10 @@ class Evaluator:
                     return r
         if is_uom_new(name):
             return _m_uom_new(self, args, t, depth)
+        if name.startswith("uom::si::") and name.endswith(">::get") and args and args[0][0] == "uom":
+            units = tuple(x["d"]["s"] for x in t.get("targs", []))
+            if units and units[-1] == args[0][1][-1]:
+                return args[0][2]           # get::<U>(new::<U>(x)) = x
         target = self.prog.fn(name) or self.prog.fn(declared)
         if target is not None and target.path not in self.opaque_local and not target.is_coroutine:
             return self.eval_fn(target, args, depth + 1)
